@@ -38,6 +38,8 @@ LEVEL_TEXT = ("Coq theorems over the reals about the executable Gallina model of
               "'Input not modified' holds trivially in the functional model and is checked on the implementation by the oracle.")
 LEVEL_NOTE = ("The model is tied to /repo by the sampled correspondence check (tolerance 1e-9). The geometric coincidence of pieces and original "
               "is checked exactly on every generated case by the oracle, not proved in general.")
+# functions of the numerical core this property rests on that are also tied by the translator (tie theorems: Proofs/GenTie*.v, restated in Props/)
+TRANSLATED = ["helpers.find_span_linear", "helpers.find_spans", "helpers.find_multiplicity", "helpers.knot_insertion", "helpers.knot_insertion_kv"]
 TECHNIQUE = "Coq proof (list algebra on knot vectors and nets) + Gallina model executed by vm_compute against geomdl outputs + exact Fraction oracle"
 
 
